@@ -148,6 +148,7 @@ func (u *Unit) Origins(v ssa.Value, opt *OriginOpts) []Origin {
 	}
 	// a buffer's content comes from whatever fills it: calls that receive the
 	// buffer (or a slice of it) are reported as "fill" origins
+	var walk func(v ssa.Value)
 	var addFills func(v ssa.Value, depth int)
 	addFills = func(v ssa.Value, depth int) {
 		if depth > 3 || v.Referrers() == nil {
@@ -156,13 +157,20 @@ func (u *Unit) Origins(v ssa.Value, opt *OriginOpts) []Origin {
 		for _, ref := range *v.Referrers() {
 			switch y := ref.(type) {
 			case ssa.CallInstruction:
-				add("fill", u.CalleeName(y.Common()), v)
+				cn := u.CalleeName(y.Common())
+				add("fill", cn, v)
+				// an encoder writing dst from src: the content is src's
+				if args := y.Common().Args; len(args) >= 2 && args[0] == v {
+					switch {
+					case cn == "encoding/hex.Encode", cn == "copy", strings.HasSuffix(cn, "Encoding).Encode"):
+						walk(args[1])
+					}
+				}
 			case *ssa.Slice:
 				addFills(y, depth+1)
 			}
 		}
 	}
-	var walk func(v ssa.Value)
 	walk = func(v ssa.Value) {
 		if v == nil || seen[v] {
 			return
